@@ -28,5 +28,8 @@ class ImportNode(BaseNode):
             node.name = Sign.SEPARATOR.join(path)
             node.indent = self.indent
             node.isource = self.source
+            # an imported node carries its value: its expression or function is not evaluated again here
+            node.value_expr = None
+            node.value_fn = None
             nodes_new.append(node)
         return nodes_new
